@@ -40,7 +40,7 @@ def method(facts, cls, name, pred=None):
 def ctor_of(facts, cls, nparams_min, first_param_not_ptr=True):
     cs = [m for m in facts.methods_of(cls) if m["kind"] == "CXXConstructor" and tbf.body(m) is not None and not m.get("inst") and len(m["params"]) >= nparams_min
           and not any("unsigned char" in p["t"] or "std::pair<unsigned char" in p["t"] for p in m["params"]) and not any(re.match(r"^(const )?%s(<.*>)? ?&&?$" % cls, p["t"]) for p in m["params"])]
-    return cs
+    return [tbf.expand_member_helpers(facts, c) for c in cs]      # a constructor whose body was moved into a (re)initialisation method is analysed through it
 
 
 # ---------------------------------------------------------------------------------------------- C07.2 typestate
